@@ -75,6 +75,7 @@ type Interp struct {
 	splits     []*Term
 	feasSolver *Solver
 	inTask     bool
+	lockDepth  int // mutexes currently held (fork mode bookkeeping for schedule exploration)
 	permuteMaps  bool
 	permuteSites []string
 	sinceVar   *Term
@@ -415,8 +416,10 @@ func (in *Interp) callFn(caller *Frame, fn *ssa.Function, args []Value, binds []
 			return in.zeroResults(fn.Signature)
 		}
 	}
-	// unconditional self-recursion with the caller's own arguments never terminates
-	if caller != nil && caller.fn == fn && g == caller.entryG && len(args) == len(fn.Params) {
+	// unconditional self-recursion (a call in the entry block, before any branch) with the caller's own
+	// arguments never terminates
+	if caller != nil && caller.fn == fn && g == caller.entryG && len(args) == len(fn.Params) && site != nil &&
+		site.Block() != nil && site.Block().Index == 0 {
 		same := true
 		for i, p := range fn.Params {
 			if !identical(caller.env[p], args[i]) {
